@@ -139,6 +139,10 @@ def make(i, base_seed, tier):
         d0 = xr.randint(1, 5)
         pf = {fake.pop(): a for a in range(1, 6) if a != d0}
         ka, kb = knobs(), knobs()
+        for k_ in (ka, kb, scn["master_knobs"]):
+            # these families are loss-free and claim liveness: no MCU stalls (they belong to the lossy configuration)
+            k_.pop("stall_prob", None)
+            k_.pop("stall_us", None)
         ja = {"id": ida, "cls": "mesh", "offset_ms": 0, "knobs": ka, "ops": [{"op": "renew", "timeout": 10.0}]}
         jb = {"id": idb, "cls": "mesh", "offset_ms": 0, "knobs": kb, "ops": [{"op": "renew", "timeout": 10.0}]}
         scn.update(serial=True, lossy=False, faults=[], prefill={str(k): v for k, v in pf.items()}, joiners=[ja, jb])
